@@ -236,6 +236,8 @@ class IndividualParameters:
         """
         ip = IndividualParameters()
 
+        # any iterable is accepted (also a generator, which can be walked through only once)
+        indices = list(indices)
         unknown_ix = [ix for ix in indices if ix not in self._indices]
         if len(unknown_ix) > 0:
             raise LeaspyIndividualParamsInputError(
